@@ -346,6 +346,7 @@ pub fn step_strategy(cfg: &Cfg, p: Profile) -> BoxedStrategy<Step> {
         (if split { 4 } else { 0 }, (0..slots, prop_oneof![4 => 0u16..48, 1 => 100u16..300]).prop_map(|(slot, len)| Step::Resize { slot, len }).boxed()),
         (if split { 8 } else if lossy { 1 } else { 0 }, k_strategy().prop_map(|k| Step::MutateAll { k }).boxed()),
         (if split { 3 } else if lossy { 2 } else { 0 }, (3u8..10).prop_map(|n| Step::IdleFrames { n }).boxed()),
+        (if lossy { 1 } else { 0 }, (1u8..13).prop_map(|secs| Step::LongFrame { secs }).boxed()),
         (
             if cfg.policy == 0 { 10 } else { 6 },
             if tight { prop_oneof![1 => Just(true), 1 => Just(false)].boxed() } else { prop_oneof![2 => Just(true), 1 => Just(false)].boxed() }
